@@ -106,6 +106,8 @@ def inv(m):
     m = np.array(m, dtype=np.longdouble)
     if len(m.shape) != 2 or m.shape[0] != m.shape[1]:
         raise np.linalg.LinAlgError("Input matrix must be a square matrix.")
+    if not np.all(np.isfinite(m)):
+        raise np.linalg.LinAlgError("Input matrix must be finite.")
     order = m.shape[0]
 
     # create permutation matrices:
